@@ -869,12 +869,26 @@ var traceSeq int
 // traceRun executes one seeded free-running run and returns its events.
 func traceRun(cf *conf, rng *rand.Rand, in *mbt.Input, res *mbt.Result) []any {
 	srBatch := 1 + rng.Intn(3)
+	curW := cf.W // worker count of the running generation
+	if len(cf.counts) > 0 {
+		curW = cf.counts[rng.Intn(len(cf.counts))]
+	}
+	turn := rng.Intn(1 << 16) // selects the DKV tuning of every generation in turn
+	dkv0 := cluster.DkvCounters()
+	defer func() { countDkv(res, dkv0) }()
 	opt := cluster.Options{
-		Workers: cf.W, KeyGroups: cf.KeyGroups, Splits: cf.splits,
+		Workers: curW, KeyGroups: cf.KeyGroups, Splits: cf.splits,
 		OpBatch: 1 + rng.Intn(3), OpDelay: time.Duration(200+rng.Intn(800)) * time.Microsecond,
 		SrBatch: srBatch, SrDelay: time.Duration(200+rng.Intn(800)) * time.Microsecond,
 		AutoRead: false, ReadBatch: 1 + rng.Intn(2), ReadDelay: time.Duration(rng.Intn(500)) * time.Microsecond, Watermarks: "pass", LogCalls: os.Getenv("RECOVERY_DUMP_DIR") != "",
 		Gates: []string{cluster.PJobOpAck, cluster.PJobSrAck},
+	}
+	if cf.overlap {
+		opt.Gates = append(opt.Gates, cluster.PStoreWrite) // snapshot writes are held and land in seeded order
+	}
+	if len(cf.mem) > 0 {
+		// a slower source: checkpoints, kills and restarts fall between the records (and their flushes) instead of before / after all of them
+		opt.ReadDelay = time.Duration(300+rng.Intn(1500)) * time.Microsecond
 	}
 	c, err := cluster.New(opt)
 	if err != nil {
@@ -977,7 +991,7 @@ func traceRun(cf *conf, rng *rand.Rand, in *mbt.Input, res *mbt.Result) []any {
 		})
 		misplaced := 0
 		for k, where := range cs.Where {
-			if len(where) != 1 || cluster.OpIndexOfID(cs.Ops[where[0]].Op) != cluster.OwnerOf(cf.KeyGroups, cf.W, k) {
+			if len(where) != 1 || cluster.OpIndexOfID(cs.Ops[where[0]].Op) != cluster.OwnerOf(cf.KeyGroups, len(cs.Ops), k) {
 				misplaced++
 			}
 		}
@@ -995,12 +1009,104 @@ func traceRun(cf *conf, rng *rand.Rand, in *mbt.Input, res *mbt.Result) []any {
 		return events // what was recorded so far is still validated
 	}
 
-	restored, err := c.Boot()
+	// boot (restart) the next generation with w workers under the DKV tuning whose turn it is
+	boot := func(w int, restart bool) (uint64, error) {
+		if err := c.SetWorkers(w); err != nil {
+			return 0, err
+		}
+		if cf.tuneFor(turn) != 0 {
+			res.Count("tunedGenerations", 1)
+		}
+		turn++
+		mark := len(c.Log(0))
+		var restored uint64
+		var err error
+		if restart {
+			restored, err = c.Restart()
+		} else {
+			restored, err = c.Boot()
+		}
+		cf.untune()
+		if err == nil {
+			if w != curW {
+				res.Count("rescales", 1)
+				res.Count(fmt.Sprintf("rescale%dto%d", curW, w), 1)
+			}
+			curW = w
+			countShapes(c, mark, res)
+		}
+		return restored, err
+	}
+	nextW := func() int {
+		if len(cf.counts) == 0 {
+			return curW
+		}
+		return cf.counts[rng.Intn(len(cf.counts))]
+	}
+	restored, err := boot(curW, false)
 	if err != nil {
 		return fail("trace boot: %v", err)
 	}
 	_ = restored
+	if len(cf.counts) > 0 {
+		events = append(events, map[string]any{"op": "Start", "w": curW})
+	}
 	c.SetAutoRead(true)
+	// overlap mode: snapshot writes parked at the store gate, landed by the driver in seeded order
+	var writes []*gate.Arrival
+	jobDead := false
+	pollWrites := func() (arrived bool) {
+		if !cf.overlap {
+			return false
+		}
+		for {
+			a, err := c.Sched().Await(gate.Point(cluster.PStoreWrite), 0)
+			if err != nil {
+				return arrived
+			}
+			writes = append(writes, a)
+			arrived = true
+		}
+	}
+	readBack := func(p cluster.Obs) {
+		if ck, err := cluster.ReadJobCheckpointFile(p.Text); err == nil {
+			cs, err := c.ReadCheckpointState(ck)
+			if err != nil {
+				events = append(events, map[string]any{"op": "Unrestorable", "n": int(ck.Id), "err": err.Error()})
+			} else {
+				events = append(events, snapEvent("Published", ck.Id, cs))
+			}
+		}
+	}
+	landWrite := func(i int) {
+		a := writes[i]
+		writes = append(writes[:i:i], writes[i+1:]...)
+		if jobDead {
+			call(a).Fail = errors.New("the job was killed before the write")
+			a.Release()
+			return
+		}
+		mark := len(c.Log(0))
+		a.Release()
+		select {
+		case <-call(a).Done():
+		case <-time.After(wait):
+		}
+		if call(a).Err != nil {
+			return
+		}
+		c.WaitRetention(wait)
+		flush()
+		for _, o := range c.Log(mark) {
+			if o.Kind == "published" && o.Ckpt == call(a).Ckpt {
+				if o.Superseded {
+					res.Count("supersededWrites", 1) // landed after a newer one: the job removes the file again
+				} else {
+					readBack(o) // right away: the next write that lands makes this one obsolete
+				}
+			}
+		}
+	}
 	// acks are held at their gates and released in seeded random order by the driver
 	var held []*gate.Arrival
 	releaseAcks := func(s *gate.Sched, max int) {
@@ -1034,13 +1140,20 @@ func traceRun(cf *conf, rng *rand.Rand, in *mbt.Input, res *mbt.Result) []any {
 	anyDead := false
 	for time.Now().Before(deadline) {
 		flush()
+		if pollWrites() {
+			ckptOpen = false // every ack is in: the store accepts the next checkpoint while this one is being written
+		}
+		if len(writes) > 0 && rng.Intn(10) == 0 {
+			landWrite(rng.Intn(len(writes)))
+			continue
+		}
 		// progress of the current generation
 		cur := c.ReaderCursors()
 		read := 0
 		for s := 0; s < cf.NSplits; s++ {
 			read += cur[s]
 		}
-		if ckptOpen {
+		if ckptOpen && !cf.overlap {
 			if _, ok := c.WaitObs(openFrom, 0, func(o cluster.Obs) bool { return o.Kind == "published" && o.Gen == c.Gen() }); ok {
 				c.WaitRetention(wait) // before the next tick (DESIGN 7 #28)
 				ckptOpen = false
@@ -1062,6 +1175,9 @@ func traceRun(cf *conf, rng *rand.Rand, in *mbt.Input, res *mbt.Result) []any {
 		case x < 30 && !ckptOpen && !anyDead && ckpts > 0:
 			ckpts--
 			ckptOpen = true
+			if len(writes) > 0 {
+				res.Count("ticksWhilePublishing", 1)
+			}
 			openFrom = len(c.Log(0))
 			go c.TickCheckpoint()
 		case x < 60:
@@ -1073,20 +1189,33 @@ func traceRun(cf *conf, rng *rand.Rand, in *mbt.Input, res *mbt.Result) []any {
 				if rng.Intn(4) == 0 {
 					nodes = append(nodes, "job")
 				}
-				for w := 0; w < cf.W; w++ {
+				for w := 0; w < curW; w++ {
 					if rng.Intn(2) == 0 {
 						nodes = append(nodes, fmt.Sprintf("w%d", w))
 					}
 				}
 			}
+			if len(writes) > 0 || ckptOpen {
+				res.Count("killsWhileCheckpointing", 1)
+			}
 			c.Kill(nodes...)
 			anyDead = true
+			if nodes[0] == "job" {
+				jobDead = true
+				for len(writes) > 0 {
+					landWrite(0) // a dead job writes nothing
+				}
+			}
 		case x < 80 && anyDead:
 			// survivors may go on for a while; then restart
 			releaseAcks(c.Sched(), 4)
 			time.Sleep(time.Duration(rng.Intn(1500)) * time.Microsecond)
 			flush()
-			if ckptOpen { // a checkpoint may have been completed by the survivors: record it before the restart
+			pollWrites()
+			for len(writes) > 0 && rng.Intn(2) == 0 { // a living job may still write what the survivors completed
+				landWrite(rng.Intn(len(writes)))
+			}
+			if ckptOpen && !cf.overlap { // a checkpoint may have been completed by the survivors: record it before the restart
 				if _, ok := c.WaitObs(openFrom, 0, func(o cluster.Obs) bool { return o.Kind == "published" && o.Gen == c.Gen() }); ok {
 					pubs := c.Published()
 					p := pubs[len(pubs)-1]
@@ -1100,7 +1229,7 @@ func traceRun(cf *conf, rng *rand.Rand, in *mbt.Input, res *mbt.Result) []any {
 				}
 			}
 			mark := len(c.Log(0))
-			restored, err := c.Restart()
+			restored, err := boot(nextW(), true)
 			flush()
 			if err != nil {
 				if errors.Is(err, cluster.ErrBootTimeout) {
@@ -1120,10 +1249,10 @@ func traceRun(cf *conf, rng *rand.Rand, in *mbt.Input, res *mbt.Result) []any {
 			if lost == nil {
 				lost = []int{}
 			}
-			events = append(events, map[string]any{"op": "Restart", "n": int(restored), "lost": lost})
+			events = append(events, restartEvent(cf, restored, lost, curW))
 			c.SetAutoRead(true)
-			held = nil
-			anyDead, ckptOpen = false, false
+			held, writes = nil, nil
+			anyDead, ckptOpen, jobDead = false, false, false
 		default:
 			time.Sleep(time.Duration(rng.Intn(400)) * time.Microsecond)
 		}
@@ -1136,9 +1265,13 @@ func traceRun(cf *conf, rng *rand.Rand, in *mbt.Input, res *mbt.Result) []any {
 	}
 	// completion: restart if needed, drain, final checkpoint
 	flush()
+	pollWrites()
+	for len(writes) > 0 && !anyDead {
+		landWrite(rng.Intn(len(writes)))
+	}
 	if anyDead {
 		mark := len(c.Log(0))
-		restored, err := c.Restart()
+		restored, err := boot(nextW(), true)
 		flush()
 		if err != nil {
 			if errors.Is(err, cluster.ErrBootTimeout) {
@@ -1157,7 +1290,7 @@ func traceRun(cf *conf, rng *rand.Rand, in *mbt.Input, res *mbt.Result) []any {
 		if lost == nil {
 			lost = []int{}
 		}
-		events = append(events, map[string]any{"op": "Restart", "n": int(restored), "lost": lost})
+		events = append(events, restartEvent(cf, restored, lost, curW))
 		c.SetAutoRead(true)
 	}
 	c.Sched().FreeRun()
@@ -1218,6 +1351,15 @@ func traceRun(cf *conf, rng *rand.Rand, in *mbt.Input, res *mbt.Result) []any {
 		return events
 	}
 	return fail("trace: no final checkpoint")
+}
+
+// restartEvent: the new generation's worker count is part of the event when the job may be rescaled.
+func restartEvent(cf *conf, restored uint64, lost []int, w int) map[string]any {
+	ev := map[string]any{"op": "Restart", "n": int(restored), "lost": lost}
+	if len(cf.counts) > 0 {
+		ev["w"] = w
+	}
+	return ev
 }
 
 func main() {
